@@ -156,6 +156,9 @@ func checkC02(cfg *core.Config) int {
 		opts := synth.RandomTypeOpts(r)
 		opts.Unions = true
 		opts.IgnoreAlone = i%2 == 0
+		if i%3 == 0 {
+			opts.Embedded, opts.Recursive = true, true // embedded structs and interfaces, container members of unions
+		}
 		progs = append(progs, synth.NewTypeProg(cfg.Seed, i, r, opts))
 	}
 	progs = append(progs, pinnedPrograms("C02")...)
